@@ -1552,7 +1552,7 @@ let cr_cmd (args : string list) : string =
   | ["ckptscan"; c] ->
     (match aget (big_of_string c) !cr_state.s_ckpts with
      | None -> "bad"
-     | Some ck -> let o = cki_open_ckpt ck !cr_state.s_ckpts in cr_scan o o.s_sq.q_visible)
+     | Some ck -> let o = cki_open_ckpt !cr_bsz ck !cr_state.s_ckpts in cr_scan o o.s_sq.q_visible)
   | ["tables"] ->
     let s = !cr_state in
     let show_ver (x : cver) = Printf.sprintf "%s@%s=%s" (cr_key_name x.cv_key) (dec_of_n x.cv_seq)
